@@ -50,6 +50,7 @@ type c10PoolRig struct {
 	owned    map[*Conn]string // live tunnels
 	lastEnd  map[*Conn]string
 	seq      int
+	mk       func() *Pool
 }
 
 func (g *c10PoolRig) nodePool() *NodeConnectionPool {
@@ -88,12 +89,7 @@ func (g *c10PoolRig) auditIdle() (maxDup int, idle int) {
 
 // acquire takes a connection for a new tunnel and audits its ownership.
 func (g *c10PoolRig) acquire(r *rand.Rand) *c10PT {
-	gctx, cancel := context.WithTimeout(g.ctx, 10*time.Second)
-	conn, err := g.pool.Get(gctx, "c10-node-b")
-	cancel()
-	if err != nil {
-		g.t.Fatalf("c10: Pool.Get: %v", err)
-	}
+	conn := c10PoolGet(g.t, g.run, g.ctx, &g.pool, g.mk)
 	g.seq++
 	idStr := c10ClientID([]string{"tcp", "udp", "socks5"}[r.Intn(3)], int64(1727400000)*1e9+r.Int63n(int64(1e17)), 1024+r.Intn(60000))
 	pt := &c10PT{conn: conn, idStr: idStr, id: c10WireID(g.t, idStr), after: g.lastEnd[conn]}
@@ -290,9 +286,12 @@ func TestVerifC10PoolReuse(t *testing.T) {
 	if err := st.Set("tunnox:node:c10-node-b:addr", peerSide.ln.Addr().String(), time.Hour); err != nil {
 		t.Fatalf("c10: storage set: %v", err)
 	}
-	pool := NewPool(ctx, st, "c10-node-a", PoolConfig{MinConns: 0, MaxConns: 4096, IdleTimeout: time.Hour, DialTimeout: 5 * time.Second})
-	defer pool.Close()
-	g := &c10PoolRig{t: t, run: run, ctx: ctx, pool: pool, peerSide: peerSide, owned: map[*Conn]string{}, lastEnd: map[*Conn]string{}}
+	// MaxConns far above the need, fresh-pool fallback in c10PoolGet: see TestVerifC10Pooled
+	mkPool := func() *Pool {
+		return NewPool(ctx, st, "c10-node-a", PoolConfig{MinConns: 0, MaxConns: 1 << 15, IdleTimeout: time.Hour, DialTimeout: 5 * time.Second})
+	}
+	g := &c10PoolRig{t: t, run: run, ctx: ctx, pool: mkPool(), mk: mkPool, peerSide: peerSide, owned: map[*Conn]string{}, lastEnd: map[*Conn]string{}}
+	defer func() { g.pool.Close() }()
 
 	rounds := run.Pick(70, 900)
 	stormSeries := run.Pick(1200, 6000)
@@ -331,7 +330,7 @@ func TestVerifC10PoolReuse(t *testing.T) {
 			run.Eval(1)
 			if !ok {
 				// do not let a connection in unknown state back into the pool
-				pool.CloseConn(pt.conn)
+				g.pool.CloseConn(pt.conn)
 				pt.peerTCP.Close()
 				g.finish(pt, ending+"-failed")
 				continue
@@ -348,7 +347,7 @@ func TestVerifC10PoolReuse(t *testing.T) {
 				if r.Intn(2) == 0 {
 					pt.conn.Release()
 				} else {
-					pool.Put(pt.conn)
+					g.pool.Put(pt.conn)
 					style = "single-put"
 				}
 			} else {
@@ -377,14 +376,9 @@ func TestVerifC10PoolReuse(t *testing.T) {
 			for k := 0; k < stormSeries && !stop(); k++ {
 				var c *Conn
 				if k%40 == 0 {
-					gctx, gcancel := context.WithTimeout(ctx, 10*time.Second)
-					cc, err := pool.Get(gctx, "c10-node-b")
-					gcancel()
-					if err != nil {
-						t.Fatalf("c10: Pool.Get in storm series: %v", err)
-					}
-					c = cc
-				} else {
+					c = c10PoolGet(t, run, ctx, &g.pool, g.mk)
+					np = g.nodePool()
+				} else if np != nil {
 					select {
 					case c = <-np.conns:
 						c.MarkInUse()
@@ -405,8 +399,8 @@ func TestVerifC10PoolReuse(t *testing.T) {
 						"concurrent_release_calls": n, "occurrences_in_idle_list": dup, "local_addr": fmt.Sprint(c.LocalAddr())})
 					// what the duplicate means for users of the pool
 					gctx, gcancel := context.WithTimeout(ctx, 10*time.Second)
-					c1, e1 := pool.Get(gctx, "c10-node-b")
-					c2, e2 := pool.Get(gctx, "c10-node-b")
+					c1, e1 := g.pool.Get(gctx, "c10-node-b")
+					c2, e2 := g.pool.Get(gctx, "c10-node-b")
 					gcancel()
 					if e1 == nil && e2 == nil && c1 == c2 {
 						run.Violation("C10:pool|conn-shared", map[string]any{"seed": run.Seed, "round": round, "storm_in_series": k,
@@ -414,7 +408,7 @@ func TestVerifC10PoolReuse(t *testing.T) {
 					}
 					for _, cx := range []*Conn{c1, c2} {
 						if cx != nil {
-							pool.CloseConn(cx)
+							g.pool.CloseConn(cx)
 						}
 					}
 					break
